@@ -14,14 +14,35 @@ func thresholds(set WSetting) []int {
 	cp := capOf(set)
 	w := set.Window
 	t := []int{1, 7, 8, 9, 258, 259, w - 1, w, w + 1, cp - 1, cp, cp + 1, 65535, 65536, 65537, 2*cp + 3, 32767, 32768, 32769}
+	for _, p := range fillPoints(set) {
+		t = append(t, p-1, p, p+1)
+	}
 	sort.Ints(t)
 	return t
 }
 
 func pick(rng *rand.Rand, xs []int) int { return xs[rng.Intn(len(xs))] }
 
-// concreteSize maps an abstract Write size class to bytes.
-func concreteSize(rng *rand.Rand, set WSetting, class int) int {
+// fillPoints: cumulative input sizes at which the accumulation buffer of
+// fastgo's own compressors becomes exactly full (first fill, then after every
+// slide), plus the 16-bit position wrap and the token-block limit.
+func fillPoints(set WSetting) []int {
+	cp := capOf(set)
+	step := cp - set.Window
+	if set.Level == -2 {
+		step = cp
+	}
+	var pts []int
+	for k := 0; k < 4; k++ {
+		pts = append(pts, cp+k*step)
+	}
+	return append(pts, 32767, 32768, 65535, 65536, 131072)
+}
+
+// concreteSize maps an abstract Write size class to bytes; total is the
+// number of bytes written so far in this stream, so that a large Write can
+// end exactly at, one before or one after a fill point.
+func concreteSize(rng *rand.Rand, set WSetting, class int, total int) int {
 	cp := capOf(set)
 	switch class {
 	case 0:
@@ -29,6 +50,19 @@ func concreteSize(rng *rand.Rand, set WSetting, class int) int {
 	case 1:
 		return pick(rng, []int{1, 1, 2, 7, 8, 9, 100, 258, 259, 1 + rng.Intn(2000)})
 	default:
+		if rng.Intn(10) < 6 {
+			var cand []int
+			for _, p := range fillPoints(set) {
+				for d := -1; d <= 1; d++ {
+					if p+d > total {
+						cand = append(cand, p+d-total)
+					}
+				}
+			}
+			if len(cand) > 0 {
+				return pick(rng, cand)
+			}
+		}
 		return pick(rng, []int{cp - 1, cp, cp + 1, cp + 7, 65535, 65536, 65537, cp + rng.Intn(5000), 2*cp + 3})
 	}
 }
@@ -51,12 +85,16 @@ func (c *Ctx) histCases(prefix string, behs []string, rng *rand.Rand, settings [
 		for k := 0; k < perHist; k++ {
 			set := settings[(i*perHist+k*5+int(c.Seed))%len(settings)]
 			cs := &WCase{ID: fmt.Sprintf("%s-%d-%d", prefix, i, k), Set: set, Tag: settingTag(set)}
-			total := 0
+			total, stream := 0, 0
 			for _, o := range h {
 				op := Op{Op: o.Op}
 				if o.Op == "W" {
-					op.N = concreteSize(rng, set, o.N)
+					op.N = concreteSize(rng, set, o.N, stream)
 					total += op.N
+					stream += op.N
+				}
+				if o.Op == "R" {
+					stream = 0
 				}
 				cs.Ops = append(cs.Ops, op)
 			}
@@ -90,9 +128,9 @@ func checkC10(c *Ctx) (int, error) {
 	if err := c.writerModels(); err != nil {
 		return 0, err
 	}
-	maxLen, per := 4, 6
+	maxLen, per := 4, 10
 	if c.Tier == "thorough" {
-		maxLen, per = 6, 8
+		maxLen, per = 6, 12
 	}
 	cfg := genCfg(`"flate"`, []int{0, 1, 2}, maxLen, 0, false, []string{"Write", "Flush"}, "")
 	behs, err := c.Behaviours("WriterModel", "GEN_C10.cfg", map[string]string{"GEN_C10.cfg": cfg}, 10*time.Minute)
@@ -135,9 +173,9 @@ func checkC01(c *Ctx) (int, error) {
 	if err := c.writerModels(); err != nil {
 		return 0, err
 	}
-	maxLen, per := 3, 4
+	maxLen, per := 4, 3
 	if c.Tier == "thorough" {
-		maxLen, per = 5, 6
+		maxLen, per = 5, 8
 	}
 	cfg := genCfg(`"flate"`, []int{0, 1, 2}, maxLen, 0, false, []string{"Write", "Flush"}, "")
 	behs, err := c.Behaviours("WriterModel", "GEN_C01.cfg", map[string]string{"GEN_C01.cfg": cfg}, 10*time.Minute)
@@ -161,9 +199,9 @@ func checkC01(c *Ctx) (int, error) {
 		return 0, err
 	}
 	// long inputs: several buffer slides and 16-bit position wraps
-	nLong := 24
+	nLong := 40
 	if c.Tier == "thorough" {
-		nLong = 200
+		nLong = 400
 	}
 	for i := 0; i < nLong; i++ {
 		set := flateOnly[(i+int(c.Seed))%len(flateOnly)]
@@ -339,9 +377,9 @@ func checkC12(c *Ctx) (int, error) {
 	if err := c.writerModels(); err != nil {
 		return 0, err
 	}
-	maxLen, per := 5, 3
+	maxLen, per := 5, 5
 	if c.Tier == "thorough" {
-		maxLen, per = 6, 5
+		maxLen, per = 6, 8
 	}
 	cfg := genCfg(`"flate"`, []int{1, 2}, maxLen, 2, false, []string{"Write", "Flush", "Close", "Reset"}, "")
 	behs, err := c.Behaviours("WriterModel", "GEN_C12.cfg", map[string]string{"GEN_C12.cfg": cfg}, 10*time.Minute)
